@@ -72,15 +72,26 @@ ThroughLink(f, e) ==
         /\ NodeAt(f, Root \o SubSeq(cs, 1, k)).kind = "link"
 
 Err(f) == [ok |-> FALSE, fs |-> f]
+\* only the immediate parent (and, for directories, the path itself) is looked at
+ParentLink(f, e) ==
+    LET cs == NoDots(e.comps) IN
+    \/ (Len(cs) >= 2 /\ NodeAt(f, Root \o SubSeq(cs, 1, Len(cs) - 1)).kind = "link")
+    \/ (e.kind = "dir" /\ cs # <<>> /\ NodeAt(f, Root \o cs).kind = "link")
+\* Designs: "safe" (the property holds); and four ways to miss it, each of which MC_Extract must refute:
+\*   "naive"       joins the stored path onto the target and creates through whatever is there
+\*   "parentonly"  refuses ".." but checks only the immediate parent for symbolic links
+\*   "mkdirfirst"  creates the parent directories of the stored path first and refuses afterwards
 Step(design, f, e) ==
     IF e.kind = "other" THEN Err(f)
-    ELSE IF design = "safe" /\ (HasDotDot(e) \/ ThroughLink(f, e)) THEN Err(f)
-    ELSE LET p == Root \o (IF design = "safe" THEN NoDots(e.comps) ELSE e.comps)
+    ELSE IF design = "mkdirfirst" /\ HasDotDot(e) THEN Err(MkdirP(f, Parent(Root \o e.comps), 1).fs)
+    ELSE IF design \in {"safe", "mkdirfirst"} /\ (HasDotDot(e) \/ ThroughLink(f, e)) THEN Err(f)
+    ELSE IF design = "parentonly" /\ (HasDotDot(e) \/ ParentLink(f, e)) THEN Err(f)
+    ELSE LET p == Root \o (IF design # "naive" THEN NoDots(e.comps) ELSE e.comps)
              pre == MkdirP(f, Parent(p), 1)          \* parent directories are created first
          IN IF ~pre.ok THEN pre
             ELSE IF e.kind = "dir" THEN MkdirP(pre.fs, p, 1)
             ELSE IF e.kind = "link" THEN MakeLink(pre.fs, p, e.target)
-            ELSE IF design = "safe" /\ NodeAt(pre.fs, p).kind = "link"
+            ELSE IF design # "naive" /\ NodeAt(pre.fs, p).kind = "link"
                  THEN WriteFile({m \in pre.fs : m.path # p}, p, e.data)      \* replace the link, do not write through it
                  ELSE WriteFile(pre.fs, p, e.data)
 
